@@ -86,7 +86,8 @@ def parseRaw (s : String) : Option RawFrag :=
   match s.splitOn ":" with
   | [p, ids] => do
     let p ← parseNat p
-    if ids = "-" then some { phys := p, ids := none }
+    if p = 0 then none
+    else if ids = "-" then some { phys := p, ids := none }
     else if ids = "e" then some { phys := p, ids := some [] }
     else
       let l ← (ids.splitOn ",").mapM parseNat
